@@ -105,12 +105,8 @@ func TestZZReplay(t *testing.T) {
 	ov[filepath.Join(pkgDir, "zz_verif_replay_test.go")] = []byte(tb.String())
 	// native redirects of module functions: rewrite their declaring files
 	if rf.Redirects != "" {
-		data, err := os.ReadFile(filepath.Join(hdir, rf.Redirects))
+		tbl, err := readRedirectTables(hdir, rf.Redirects)
 		if err != nil {
-			return false, err.Error()
-		}
-		var tbl map[string]string
-		if err := json.Unmarshal(data, &tbl); err != nil {
 			return false, err.Error()
 		}
 		if err := rewriteRedirects(repo, rf.Package, tbl, ov); err != nil {
